@@ -2,6 +2,8 @@
 import os, sys, json, time
 
 VERIF = os.path.dirname(os.path.dirname(os.path.abspath(__file__)))
+# experiments against a scratch copy of the repository (bin/revert_test, bin/trymutant) write their evidence and replay files elsewhere
+OUT = os.environ.get('VERIF_OUT', VERIF)
 
 
 def load_known():
@@ -48,8 +50,8 @@ class Check:
                 out.append('KNOWN-FINDING: property=%s %s [%s] (%d cases)' % (self.pid, k['description'], k['id'], len(cnt)))
                 continue
             nviol += 1
-            os.makedirs(os.path.join(VERIF, 'replay'), exist_ok=True)
-            path = os.path.join(VERIF, 'replay', '%s-%d.case' % (self.pid, nviol))
+            os.makedirs(os.path.join(OUT, 'replay'), exist_ok=True)
+            path = os.path.join(OUT, 'replay', '%s-%d.case' % (self.pid, nviol))
             with open(path, 'w') as f:
                 f.write('# property=%s signature=%s\n# %s\n' % (self.pid, json.dumps(sig), detail.replace('\n', '\n# ')))
                 f.write(text)
@@ -62,8 +64,8 @@ class Check:
         self.cov['flaky_reruns'] = self.flakes
         ev = dict(property_id=self.pid, tier=self.tier, seed=self.seed, level=self.level, coverage=self.cov,
                   assumptions=self.assumptions, wall_s=round(time.time() - self.t0, 2), violations=nviol)
-        os.makedirs(os.path.join(VERIF, 'evidence'), exist_ok=True)
-        with open(os.path.join(VERIF, 'evidence', self.pid + '.json'), 'w') as f:
+        os.makedirs(os.path.join(OUT, 'evidence'), exist_ok=True)
+        with open(os.path.join(OUT, 'evidence', self.pid + '.json'), 'w') as f:
             json.dump(ev, f, indent=1, default=str)
         for l in out: print(l)
         print('%s %s: evaluations=%d distinct_nontrivial=%d outcomes=%d violations=%d known=%d wall=%.1fs exhaustive=%s' % (
